@@ -27,9 +27,10 @@ class ValueGen:
         return s.ColorType((rng.randrange(256), rng.randrange(256), rng.randrange(256), a))
 
     def number(self, signed=False, allow_exp=None):
-        """a length magnitude in every number type"""
+        """a length magnitude in every number type; magnitudes that format(x, "g") writes in exponent notation (the repaired finding
+        g-exponent) are part of the ordinary stream"""
         rng = self.rng
-        if allow_exp is None: allow_exp = rng.random() < self.pf
+        if allow_exp is None: allow_exp = rng.random() < 0.08
         r = rng.random()
         if r < 0.25: v = rng.choice([0, 1, 2, 5, 10, 50, 80, 100, 12, 640])
         elif r < 0.5: v = rng.choice([0.5, 1.5, 2.25, 12.5, 0.1, 33.333333333, 99.99995, 0.000123456, 66.6666666, 100.0, 1.0, 0.30000000000000004, 123456.5, 999999.5 if allow_exp else 99999.95])
@@ -68,39 +69,38 @@ class ValueGen:
             return s.PositionType(self.length(hu, True), self.length(vu, True), rng.choice(list(s.PositionType.HEdge)), rng.choice(list(s.PositionType.VEdge)))
         if prop is SP.FillLineGap: return rng.random() < 0.5
         if prop is SP.FontFamily:
-            names = ["Arial", "Times New Roman", "x\"y", "a,b", " lead", "serif", "日本語", "sansSerif"]
-            if trig: names += ["a\\b"]
+            names = ["Arial", "Times New Roman", "x\"y", "a,b", " lead", "serif", "日本語", "sansSerif", "a\\b", "c:\\fonts\\x y", "back\\\"quote", "it's"]
+            if trig: names = [""]            # finding fontfamily-empty: an empty name, or no family at all
             fams = []
             for _ in range(rng.randint(0 if trig else 1, 3)):
                 fams.append(rng.choice(list(s.GenericFontFamilyType)) if rng.random() < 0.5 else rng.choice(names))
             return tuple(fams)
         if prop in (SP.Opacity, SP.LuminanceGain):
-            pool = [0, 1, 0.5, 1.0, 0.25, 0.75, 0.0, 2, 0.125, 1e-7, 0.1, 0.3333333333333333]
-            if trig: pool = [F(3, 4), F(1, 3)]
+            pool = [0, 1, 0.5, 1.0, 0.25, 0.75, 0.0, 2, 0.125, 1e-7, 0.1, 0.3333333333333333, F(3, 4), F(1, 3), F(2, 7), 1e-5, 0.00012345, 3, F(5, 1)]
             return rng.choice(pool)
         if prop is SP.Shear:
-            pool = [0, 0.0, 12.5, -100, 100, 50, 16.6667, -33.3, 1, 99.5]
-            if trig: pool = [F(3, 4), 250, -120.5, 1e-7]
+            pool = [0, 0.0, 12.5, -100, 100, 50, 16.6667, -33.3, 1, 99.5, F(3, 4), F(-50, 3), 1e-7, 2.5e-5, 33, F(100, 7)]
+            if trig: pool = [250, -120.5, F(1001, 10)]       # finding shear-clamped
             return rng.choice(pool)
         if prop is SP.TextDecoration:
             o = lambda: rng.choice([None, True, False])
             return s.TextDecorationType(underline=o(), line_through=o(), overline=o())
         if prop is SP.TextEmphasis:
-            if trig: return s.SpecialValues.none
+            if rng.random() < 0.15: return s.SpecialValues.none
             return s.TextEmphasisType(rng.choice(list(s.TextEmphasisType.Style)), self.color() if rng.random() < 0.5 else None,
                                       rng.choice(list(s.TextEmphasisType.Position)))
         if prop is SP.TextOutline:
             if rng.random() < 0.25: return s.SpecialValues.none
             return s.TextOutlineType(self.length(anyu), self.color() if rng.random() < 0.5 else None)
         if prop is SP.TextShadow:
-            if trig: return s.SpecialValues.none
+            if rng.random() < 0.15: return s.SpecialValues.none
             sh = []
             for _ in range(rng.randint(1, 3)):
                 sh.append(s.TextShadowType.Shadow(self.length(anyu, True), self.length(anyu, True),
                                                   self.length(anyu) if rng.random() < 0.5 else None, self.color() if rng.random() < 0.5 else None))
             return s.TextShadowType(tuple(sh))
         if prop is SP.RubyReserve:
-            if trig: return s.SpecialValues.none
+            if rng.random() < 0.15: return s.SpecialValues.none
             return s.RubyReserveType(rng.choice(list(s.RubyReserveType.Position)), self.length(anyu) if rng.random() < 0.5 else None)
         raise ValueError(f"no generator for {prop}")
 
@@ -164,8 +164,9 @@ def sval_lit(prop, v, conv=qexact):
     if isinstance(v, int): return f"(SInt {C.z(v)})"
     if isinstance(v, F): return f"(SInt {C.z(v.numerator)})" if v.denominator == 1 else f"(SFrac {C.q(v)})"
     if isinstance(v, float):
-        if conv is qrepr: return f"(SFrac {C.q(F(repr(v)))})"
-        return None
+        # written: the rational the float denotes (format(x, "g") of both is the same); read: the decimal it was read from
+        x = F(repr(v)) if conv is qrepr else F(v)
+        return f"(SInt {C.z(x.numerator)})" if x.denominator == 1 and conv is not qrepr else f"(SFrac {C.q(x)})"
     raise ValueError(f"no literal for {v!r}")
 
 
@@ -176,15 +177,17 @@ class ModelDocGen:
     def __init__(self, rng, unit=F(1, 4), exact=True, p_finding=0.02, p_style=0.25):
         self.rng = rng; self.unit = unit; self.exact = exact; self.pf = p_finding; self.p_style = p_style
         self.m, self.s = mods(); self.vg = ValueGen(rng, p_finding if p_finding > 0 else 0.0)
-        self.ntext = 0
+        self.ntext = 0; self.p_big = rng.choice([0, 0, 0.05, 0.3]); self.big_times = 0
         self.props = sorted(self.s.StyleProperties.ALL, key=lambda p: p.__name__)
 
     def time(self, hi):
         rng = self.rng
+        # times of a day and more (24 h .. 150 h): a wrap or a fixed width of the hours field shows as a concrete failing document
+        big = rng.choice([24, 25, 47, 99, 100, 101, 150]) * 3600 if rng.random() < self.p_big else 0
         if not self.exact and rng.random() < 0.5:
-            return F(rng.randrange(0, hi * 1000), rng.choice([3, 7, 9, 11, 13, 1001, 30000, 1000, 24]))
+            return big + F(rng.randrange(0, hi * 1000), rng.choice([3, 7, 9, 11, 13, 1001, 30000, 1000, 24]))
         k = int(hi / self.unit)
-        return rng.randint(0, max(1, min(k, 4000))) * self.unit
+        return (rng.randint(0, max(1, min(k, 4000))) + (int(big / self.unit) if big else 0)) * self.unit
 
     def timing(self, e, hi_b=6, hi_e=14):
         rng = self.rng
@@ -226,7 +229,7 @@ class ModelDocGen:
         for _ in range(rng.randint(0, 3)):
             k = rng.random()
             if k < 0.55:
-                if last_text and not (self.pf and rng.random() < self.pf * 3): continue     # adjacent Text children: finding adjacent-text
+                if last_text and rng.random() < 0.5: continue     # adjacent Text children (the repaired finding adjacent-text) are ordinary
                 self.text(e); last_text = True
             elif k < 0.7: br = m.Br(d); br.set_lang(self.lang); e.push_child(br); last_text = False
             elif depth < 3: e.push_child(self.span(d, regs, depth + 1)); last_text = False
@@ -297,3 +300,35 @@ class ModelDocGen:
         for _ in range(rng.randint(0, 3)): b.push_child(div(0))
         d.set_body(b)
         return d
+
+
+# ---------------------------------------------------------------------------------------------------- the writer's input as a literal
+WKINDS = {"Body": "KBody", "Div": "KDiv", "P": "KP", "Span": "KSpan", "Ruby": "KRuby", "Rb": "KRb", "Rt": "KRt", "Rp": "KRp",
+          "Rbc": "KRbc", "Rtc": "KRtc", "Br": "KBr", "Region": "KRegion"}
+
+
+def wnode_lit(e, names):
+    """Model/ImscWriteTree.v wnode literal of a model element as the IMSC writer reads it"""
+    import ttconv.model as m
+    if isinstance(e, m.Text): return f"(WT {C.text(e.get_text())})"
+    k = WKINDS[type(e).__name__]
+    b, en = (None, None) if isinstance(e, m.Br) else (e.get_begin(), e.get_end())
+    reg = None if isinstance(e, (m.Region, m.Br)) or e.get_region() is None else e.get_region().get_id()
+    styles = "[" + ";".join(f"({names.index(p.__name__)},{sval_lit(p, e.get_style(p))})" for p in e.iter_styles()) + "]"
+    anims = "[" + ";".join(f"({names.index(a.style_property.__name__)},{sval_lit(a.style_property, a.value)},{C.opt(a.begin, C.q)},{C.opt(a.end, C.q)})"
+                           for a in e.iter_animation_steps()) + "]"
+    kids = "[" + ";".join(wnode_lit(c, names) for c in e) + "]"
+    return (f"(W {k} {C.opt(e.get_id(), C.text)} {C.opt(b, C.q)} {C.opt(en, C.q)} {C.boolean(e.get_space().value == 'preserve')} "
+            f"{C.opt(reg, C.text)} {styles} {anims} {kids})")
+
+
+def wdoc_lit(doc):
+    names = prop_names()
+    cr = doc.get_cell_resolution(); px = doc.get_px_resolution(); aa = doc.get_active_area(); dar = doc.get_display_aspect_ratio()
+    pair = lambda a, b: f"({C.z(a)},{C.z(b)})"
+    return ("(mkWdoc " + C.text(doc.get_lang()) + " " + pair(cr.columns, cr.rows) + " " + C.opt(px, lambda p: pair(p.width, p.height)) + " "
+            + C.opt(aa, lambda a: "(" + ",".join(C.q(F(x)) for x in (a.left_offset, a.top_offset, a.width, a.height)) + ")") + " "
+            + C.opt(dar, lambda d: pair(F(d).numerator, F(d).denominator)) + " "
+            + "[" + ";".join(f"({names.index(p.__name__)},{sval_lit(p, v)})" for p, v in doc.iter_initial_values()) + "] "
+            + "[" + ";".join(wnode_lit(r, names) for r in doc.iter_regions()) + "] "
+            + C.opt(doc.get_body(), lambda b: wnode_lit(b, names)) + ")")
